@@ -70,7 +70,7 @@ fn xhash(x: &[f64]) -> String {
 }
 
 // ------------------------------------------------------------------ the call under test
-pub struct CallOut { pub panic: bool, pub ok: bool, pub k: i64 }
+pub struct CallOut { pub panic: bool, pub ok: bool, pub k: i64, pub err: f64 }
 /// one solver call on a live Sparse object (the object is not rebuilt: internal state, if any, carries over)
 fn call_on(a: &Sparse<f64>, b: &[f64], kind: &str, itol: usize, x: &mut Vec<f64>, budget: usize, tol: f64) -> CallOut {
     let bv = Vector::create(b.to_vec());
@@ -84,9 +84,9 @@ fn call_on(a: &Sparse<f64>, b: &[f64], kind: &str, itol: usize, x: &mut Vec<f64>
     });
     *x = xv.vec.clone();
     match r {
-        Ok(Ok(k)) => CallOut { panic: false, ok: true, k: (k as i64).min(SAT) },
-        Ok(Err(_)) => CallOut { panic: false, ok: false, k: 0 },
-        Err(_) => CallOut { panic: true, ok: false, k: 0 },
+        Ok(Ok(k)) => CallOut { panic: false, ok: true, k: (k as i64).min(SAT), err: f64::NAN },
+        Ok(Err(e)) => CallOut { panic: false, ok: false, k: 0, err: e },
+        Err(_) => CallOut { panic: true, ok: false, k: 0, err: f64::NAN },
     }
 }
 /// one solver call on a matrix freshly assembled from the triplets
@@ -95,7 +95,7 @@ fn call(s: &Sys, kind: &str, itol: usize, x: &mut Vec<f64>, budget: usize, tol: 
     let n = s.n;
     match guarded(|| Sparse::<f64>::from_triplets(n, n, &mut trip)) {
         Ok(a) => call_on(&a, &s.b, kind, itol, x, budget, tol),
-        Err(_) => CallOut { panic: true, ok: false, k: 0 },
+        Err(_) => CallOut { panic: true, ok: false, k: 0, err: f64::NAN },
     }
 }
 type Runner<'a> = &'a mut dyn FnMut(&mut Vec<f64>, usize) -> CallOut;
@@ -317,6 +317,7 @@ pub fn build(case: &Value) -> Sys {
     let fam = gets(case, "fam").to_string();
     if fam == "struct" { return build_struct(case); }
     if fam == "eig" { return build_eig(case); }
+    if fam == "tie" { return build_tie(case); }
     if fam == "scales" { return build_scales(case); }
     let n = getu(case, "n");
     let mut rng = rng(geti(case, "seed") as u64, 7);
@@ -505,12 +506,21 @@ fn upw_index(case: &Value) -> f64 {
     if gets(case, "fam") != "upw" || gets(case, "shape") == "grid" { return 0.0; }
     geti(case, "n") as f64 * (geti(case, "ra") as f64).log10() / 2.0
 }
-fn tol_of(case: &Value) -> f64 { geti(&case["tol"], "m") as f64 / 10f64.powi(geti(&case["tol"], "e") as i32) }
+/// neighbouring f64 (o = +1 / -1) of a positive finite value
+fn ulp_step(x: f64, o: i64) -> f64 { if o == 0 || !(x > 0.0) || !x.is_finite() { x } else { f64::from_bits((x.to_bits() as i64 + o) as u64) } }
+/// tolerance of a case: {m, e} = m * 10^-e;  {p2: k, ulp: o} = 2^-k moved by o units in the last place;  {bits: "hex"} = that f64
+fn tol_of(case: &Value) -> f64 {
+    let t = &case["tol"];
+    if let Some(h) = t.get("bits").and_then(|v| v.as_str()) { return f64::from_bits(u64::from_str_radix(h, 16).unwrap_or(0)); }
+    if t.get("p2").is_some() { return ulp_step(2f64.powi(-(geti(t, "p2") as i32)), t.get("ulp").and_then(|v| v.as_i64()).unwrap_or(0)); }
+    geti(t, "m") as f64 / 10f64.powi(geti(t, "e") as i32)
+}
+fn tol_exp(case: &Value) -> i64 { match case["tol"].get("e").and_then(|v| v.as_i64()) { Some(e) => e, None => { let t = tol_of(case); if t > 0.0 && t.is_finite() { (-t.log10()).floor() as i64 } else { 0 } } } }
 
 // ------------------------------------------------------------------ exec
 fn base_event(case: &Value, op: &str, s: &Sys) -> Value {
     json!({"op": op, "cid": geti(case, "cid"), "kind": gets(case, "kind"), "itol": geti(case, "itol"), "n": s.n,
-           "fam": if case.get("A").is_some() { "tlc2x2" } else { gets(case, "fam") }, "guess": gets(case, "guess"), "tole": geti(&case["tol"], "e")})
+           "fam": if case.get("A").is_some() { "tlc2x2" } else { gets(case, "fam") }, "guess": gets(case, "guess"), "tole": tol_exp(case)})
 }
 
 fn exec_c08(case: &Value, s: &Sys, run: Runner, out: &mut Out) {
@@ -603,6 +613,20 @@ fn exec_c09(case: &Value, s: &Sys, run: Runner, out: &mut Out) {
         for f in ["ra", "rb", "mg10", "flip", "rhs_e"] { e[f] = json!(geti(case, f)); }
     }
     out.ev(e);
+    // budget ladder (metamorphic, no a-priori count): the generous run answered Ok(k); the iteration is deterministic and the budget
+    // only truncates it, so budget k and k+1 must answer Ok(k) with the bit-identical x, and budget k-1 must answer Err
+    if r.ok && !r.panic {
+        let k = r.k.max(0) as usize;
+        let mut l = base_event(case, "ladder", s);
+        l["k"] = json!(r.k); l["xh"] = json!(xhash(&x));
+        let mut xa = s.x0.clone(); let ra = run(&mut xa, k);
+        let mut xb = s.x0.clone(); let rb = run(&mut xb, k + 1);
+        l["ok_k"] = json!(ra.ok); l["k_k"] = json!(ra.k); l["xh_k"] = json!(xhash(&xa));
+        l["ok_k1"] = json!(rb.ok); l["k_k1"] = json!(rb.k); l["xh_k1"] = json!(xhash(&xb));
+        let below = if k >= 1 { let mut xc = s.x0.clone(); run(&mut xc, k - 1).ok } else { false };
+        l["ok_km1"] = json!(below);
+        out.ev(l);
+    }
     // conformance notes (not guards): the exact iterates of TLC's rational CG against the real CG / BiCG iterates
     if let (Some(it), true) = (case.get("iters"), matches!(kind, "cg" | "bicg")) {
         let its = it.as_array().unwrap();
@@ -617,6 +641,80 @@ fn exec_c09(case: &Value, s: &Sys, run: Runner, out: &mut Out) {
             out.ev(ie);
         }
     }
+}
+
+// ------------------------------------------------------------------ ties with the user-supplied tolerance
+/// (a) dyadic construction: A = 2^sa * blockdiag over m blocks of diag(1 - e, 1 + e) (order per block from the seed), b = 2^sb * (+-1, .., +-1),
+/// x0 = 0, e = 2^-ek: alpha = 2^-sa exactly, the first residual is 2^sb * (+-e, -+e, ..) exactly and its norm relative to |b| is e bit for bit
+/// (BiCGSTAB: the half-step residual; CG / BiCG: the end-of-iteration residual).  The case sets tol = e or one of its two neighbours.
+fn build_tie(case: &Value) -> Sys {
+    let m = getu(case, "m").max(1); let n = 2 * m;
+    let mut rng = rng(geti(case, "seed") as u64, 16); let rng = &mut rng;
+    let e = 2f64.powi(-(geti(case, "ek") as i32)); let sa = 2f64.powi(geti(case, "sa") as i32); let sb = 2f64.powi(geti(case, "sb") as i32);
+    let mut trip = vec![]; let mut b = vec![0.0; n];
+    for k in 0..m { let flip = rng.gen_bool(0.5); let (d0, d1) = if flip { (1.0 + e, 1.0 - e) } else { (1.0 - e, 1.0 + e) };
+        trip.push((2 * k, 2 * k, d0 * sa)); trip.push((2 * k + 1, 2 * k + 1, d1 * sa)); b[2 * k] = sgn(rng) * sb; b[2 * k + 1] = sgn(rng) * sb; }
+    order_triplets(rng, &mut trip);
+    Sys { n, trip, b, x0: vec![0.0; n], kap: 0.0, ainv: 0.0, xref: None }
+}
+/// half-step residuals |s|/|b| of the first iterations of BiCGSTAB, recomputed through the public API (multiply, dot, norm_2, vector
+/// arithmetic) with the operation order of solve_bicgstab, so that the values are bit-identical to the solver's internal ones
+fn bicgstab_half_steps(s: &Sys, kmax: usize) -> Vec<f64> {
+    let mut trip = s.trip.clone(); let n = s.n;
+    let r = guarded(|| {
+        let a = Sparse::<f64>::from_triplets(n, n, &mut trip);
+        let b = Vector::create(s.b.clone()); let x = Vector::create(s.x0.clone());
+        let mut out = vec![];
+        let mut normb = b.norm_2();
+        let mut r = b.clone() - a.multiply(&x);
+        let rtilde = r.clone();
+        if normb == 0.0 { normb = 1.0; }
+        let mut p = Vector::new(n, 0.0); let mut v = Vector::new(n, 0.0);
+        let (mut rho_2, mut alpha, mut omega) = (1.0f64, 1.0f64, 1.0f64);
+        for i in 1..=kmax {
+            let rho_1 = rtilde.dot(&r);
+            if rho_1 == 0.0 { break; }
+            if i == 1 { p = r.clone(); } else { let beta = (rho_1 / rho_2) * (alpha / omega); p = r.clone() + beta * (p.clone() - omega * v.clone()); }
+            let phat = p.clone();
+            v = a.multiply(&phat);
+            alpha = rho_1 / rtilde.dot(&v);
+            let sv = r.clone() - v.clone() * alpha;
+            out.push(sv.norm_2() / normb);
+            let shat = sv.clone();
+            let t = a.multiply(&shat);
+            omega = t.dot(&sv) / t.dot(&t);
+            r = sv - t * omega;
+            rho_2 = rho_1;
+            if omega == 0.0 || !omega.is_finite() { break; }
+        }
+        out
+    });
+    r.unwrap_or_default()
+}
+/// (b) feedback ties: Err(resid_k) of a run with budget k and a tiny tolerance is the end-of-iteration residual the code itself
+/// computed; (c) BiCGSTAB half-step residuals from the mirror above.  Each such value t within 1e-12..1e-2 (at most three per case)
+/// is used as the tolerance, together with its two neighbouring f64, with budgets k-1, k, k+1 and 1000; every call is an ordinary
+/// C08 "solve" event (Ok => true residual <= tol + drift, count <= budget).
+fn exec_tie(case: &Value, out: &mut Out) {
+    let s = build(case);
+    let (kind, itol) = (gets(case, "kind").to_string(), getu(case, "itol"));
+    let mut rng = rng(geti(case, "seed") as u64, 17); let rng = &mut rng;
+    let inr = |t: f64| t.is_finite() && t >= 1e-12 && t <= 1e-2;
+    let mut tols: Vec<(f64, usize)> = vec![];
+    for k in 1..=8usize { let mut x = s.x0.clone(); let r = call(&s, &kind, itol, &mut x, k, 1e-300); if r.ok || r.panic || !r.err.is_finite() { break; } if inr(r.err) { tols.push((r.err, k)); } }
+    let mut halves: Vec<(f64, usize)> = if kind == "bicgstab" { bicgstab_half_steps(&s, 8).into_iter().enumerate().filter(|(_, h)| inr(*h)).map(|(i, h)| (h, i + 1)).collect() } else { vec![] };
+    tols.shuffle(rng); halves.shuffle(rng);
+    let mut pick: Vec<(f64, usize)> = halves.into_iter().take(2).collect();
+    let room = 3 - pick.len(); pick.extend(tols.into_iter().take(room));
+    for (t, k) in pick { for o in [0i64, 1, -1] {
+        let tv = ulp_step(t, o);
+        let budgets: Vec<usize> = if o == 0 { vec![k.saturating_sub(1), k, k + 1, 1000] } else { vec![k, 1000] };
+        for budget in budgets {
+            let mut sc = case.clone(); sc["mode"] = json!("c08"); sc["tol"] = json!({"bits": bits(tv)}); sc["budget"] = json!(budget);
+            let mut run = |x: &mut Vec<f64>, bud: usize| call(&s, &kind, itol, x, bud, tv);
+            exec_c08(&sc, &s, &mut run, out);
+        }
+    } }
 }
 
 // ------------------------------------------------------------------ sequences on one Sparse object
@@ -698,6 +796,7 @@ fn dump(case: &Value, s: &Sys) {
 
 pub fn exec(case: &Value, out: &mut Out) {
     if gets(case, "mode").starts_with("seq") { return exec_seq(case, out); }
+    if gets(case, "mode") == "tie08" { return exec_tie(case, out); }
     let s = build(case);
     if std::env::var("KRYLOV_DUMP").is_ok() { dump(case, &s); }
     let (kind, itol, tol) = (gets(case, "kind").to_string(), getu(case, "itol"), tol_of(case));
@@ -848,6 +947,27 @@ fn gen_far(quick: bool, rng: &mut StdRng, push: &mut dyn FnMut(Value)) {
     }
 }
 
+/// ties with the tolerance: (a) dyadic constructions for every solver variant, tol = 2^-ek and its neighbours, budgets 1, 2, 3, 1000;
+/// (b, c) feedback ties on small well-conditioned systems with zero and random guesses (mode tie08)
+fn gen_tie(quick: bool, rng: &mut StdRng, push: &mut dyn FnMut(Value)) {
+    for _rep in 0..(if quick { 1 } else { 4 }) {
+        for ek in [7i64, 8, 10, 13, 17, 20, 24, 27, 30, 33, 36, 39] { for m in 1..=4i64 { for (kind, itol) in KINDS {
+            let seed = rng.gen_range(0..1i64 << 30); let (sa, sb) = (rng.gen_range(-20..=20), rng.gen_range(-20..=20));
+            for ulp in [0i64, 1, -1] { for budget in [2i64, 3, 1000] {
+                if ulp != 0 && budget == 3 { continue; }
+                push(json!({"mode": "c08", "fam": "tie", "m": m, "ek": ek, "sa": sa, "sb": sb, "seed": seed, "kind": kind, "itol": itol, "budget": budget,
+                            "tol": {"p2": ek, "ulp": ulp}, "guess": "zero"}));
+            } }
+        } } }
+    }
+    let fams = ["spd", "dd", "rcs", "nonsym"];
+    for i in 0..(if quick { 160 } else { 1600 }) {
+        let (kind, itol) = if i % 2 == 0 { ("bicgstab", 1) } else { KINDS[(i / 2) % 5] };
+        push(json!({"mode": "tie08", "fam": fams[i % 4], "sub": rng.gen_range(0..6), "n": rng.gen_range(2..=12), "seed": rng.gen_range(0..1i64 << 30), "kind": kind, "itol": itol, "budget": 1000,
+                    "tol": {"m": 1, "e": 8}, "rhs": (["rand", "ax"][rng.gen_range(0..2)]), "rhs_e": rng.gen_range(-8..=8), "guess": (["zero", "random"][rng.gen_range(0..2)])}));
+    }
+}
+
 /// sequences on one Sparse object (mode seq08 / seq09): two in-place mutations, all solvers after each
 fn gen_seq(quick: bool, mode: &str, rng: &mut StdRng, push: &mut dyn FnMut(Value)) {
     let muts = ["over_diag", "over_off", "new", "scale", "transpose"];
@@ -890,7 +1010,7 @@ pub fn gen(tier: &str, seed: u64, out: &mut Out) {
     let mut cid = 0i64;
     let mut cases: Vec<Value> = vec![];
     { let mut push = |mut c: Value| { cid += 1; c["cid"] = json!(cid); c["suite"] = json!("krylov"); cases.push(c); };
-      if mode != "c09" && mode != "upw" && mode != "far" { let mut r = rng(seed, 8); gen_c08(quick, &mut r, &mut push); gen_struct(quick, &mut r, &mut push); gen_seq(quick, "seq08", &mut r, &mut push); gen_eig(quick, &mut r, &mut push); gen_scales(quick, &mut r, &mut push); }
+      if mode != "c09" && mode != "upw" && mode != "far" { let mut r = rng(seed, 8); gen_c08(quick, &mut r, &mut push); gen_struct(quick, &mut r, &mut push); gen_seq(quick, "seq08", &mut r, &mut push); gen_eig(quick, &mut r, &mut push); gen_scales(quick, &mut r, &mut push); gen_tie(quick, &mut r, &mut push); }
       if mode == "upw" { let mut r = rng(seed, 10); gen_upw(quick, &mut r, &mut push); }
       else if mode == "far" { let mut r = rng(seed, 15); gen_far(quick, &mut r, &mut push); }
       else if mode != "c08" { let mut r = rng(seed, 9); gen_c09(quick, &mut r, &mut push); gen_seq(quick, "seq09", &mut r, &mut push); let mut r = rng(seed, 10); gen_upw(quick, &mut r, &mut push); let mut r = rng(seed, 15); gen_far(quick, &mut r, &mut push); } }
